@@ -1,8 +1,11 @@
 SPECIFICATION Spec
-CONSTANTS MaxN = 8 MaxK = 5
+CONSTANTS MaxN = 8 MaxK = 5 ShareBuffer = FALSE
 INVARIANT EqRef
 INVARIANT ChunkLazy
 INVARIANT CountDefaults
 INVARIANT CountLinear
 INVARIANT CountNeverEndsByItself
+INVARIANT HeldFrozen
+INVARIANT HeldEqRef
+INVARIANT FreshResults
 CHECK_DEADLOCK FALSE
